@@ -109,6 +109,12 @@ class Prov:
             return set(s)
         out = set()
         for r, p in s:
+            if p == () and proj[0] == "[]":
+                # a collection stands for its elements (see _pushed_elems)
+                out |= self._proj({(r, p)}, proj[1:], stack)
+                continue
+            if p == () and r[0] == "call" and _is_empty_container_ctor(r[1]):
+                continue  # an empty container has no elements to project from
             if p == () and proj[0] in WRAP_PROJ:
                 if r[0] == "ctor" and r[1].split("::")[-1] == "None":
                     continue  # infeasible: Some-pattern on a None
@@ -211,7 +217,38 @@ class Prov:
                 out |= self.origins(fn, a["r"], ctx, stack)
             else:
                 out |= {(("op", a.get("op"), fn.def_path, a["id"]), ())}
+        if "Vec<" in (b.get("ty") or ""):
+            out |= self._pushed_elems(fn, lid, ctx, stack, 0)
         return out or {(("uninit",), ())}
+
+    def _pushed_elems(self, fn, lid, ctx, stack, depth):
+        """origins of the elements pushed into the vector local `lid`, in this function or in
+        crate-local callees that receive it by `&mut` (out-parameter)."""
+        out = set()
+        if depth > 4:
+            return out
+        for n in fn.nodes():
+            if not hir.is_call(n):
+                continue
+            args = hir.call_args(n)
+            name = hir.callee_name(n) or n.get("method")
+            hits = [i for i, a in enumerate(args) if (hir.local_of(a) or (None,))[0] == lid]
+            if not hits:
+                continue
+            if hits[0] == 0 and name in ("push", "insert", "push_back", "push_front", "extend", "append") and len(args) > 1:
+                out |= self.origins(fn, args[-1], ctx, stack)
+                continue
+            g = self.prog.resolve_local(n)
+            if g is not None and g.body is not None and not g.rec.get("gen") and self._ctx_depth(ctx) < self.max_depth:
+                nctx = self._ctx(fn.def_path, n["id"], ctx, g.def_path)
+                for i in hits:
+                    if i < len(g.rec["params"]):
+                        for bnd in hir.pat_bindings(g.rec["params"][i]["pat"]):
+                            key = ("pushed", g.def_path, bnd["local"], nctx)
+                            if key in stack:
+                                continue
+                            out |= self._pushed_elems(g, bnd["local"], nctx, stack + (key,), depth + 1)
+        return out
 
     def _closure_param(self, fn, closure, idx, proj, ctx, stack):
         call = fn.parent(closure)
@@ -246,7 +283,7 @@ class Prov:
             for r in return_exprs(g.body):
                 out |= self.origins(g, r, nctx, stack)
             return out or {(("unit",), ())}
-        if name in TRANSPARENT and args:
+        if (name in TRANSPARENT or (name or "").startswith("as_")) and args:
             return O(args[0])
         if name in ("unwrap_or",) and len(args) == 2:
             return O(args[0]) | O(args[1])
@@ -318,6 +355,13 @@ HOF_RECV_PARAM = {
     "map_with_mut", "map", "and_then", "map_or_else", "map_or", "for_each", "any", "all", "find", "filter", "inspect",
     "is_some_and", "map_err", "retain", "take_while", "skip_while", "position", "filter_map", "flat_map",
 }
+
+
+def _is_empty_container_ctor(path):
+    import re
+
+    q = re.sub(r"::<[^>]*>", "", path)
+    return q.split("::")[-1] in ("new", "with_capacity", "default") and q.split("::")[-2:-1] in (["Vec"], ["HashMap"], ["HashSet"], ["String"], ["VecDeque"])
 
 
 def _projnames(proj):
